@@ -2,7 +2,15 @@ import vlib
 
 class P(vlib.Prop):
     id = "C06"
-    rule = ("layerfile stage (exploration on real bytes): the real ImageLayoutToLayer emits layers of filesystems of different sizes to the SAME path "
+    rule = ("bytes stage (the byte-level codec, Model/TarBytes.v): small filesystems chosen for the corners of the tar encoding (names of 99/100/101/155/156/255/256/300 bytes, "
+            "paths that do and do not split at a '/', non-ASCII names, uid/gid around 8^7 and beyond 2^31, sizes 0/1/511/512/513/1023/1024/1025, extended attributes with "
+            "any bytes and with record lengths around 99/100 and 999/1000, link targets of 100/101 bytes, device numbers up to and beyond 8^7 (GNU fallback), mtimes 0, 8^11-1, 8^11, negative, "
+            "year 1, passwd names of 32/33 bytes and non-ASCII), the filesystems of the layers corpus and random ones are serialised by the REAL walkFS+writeTar to an uncompressed "
+            "stream and read back by archive/tar's Reader; Coq derives the members from the tree (walk, hdr_of_entry), must produce the very same bytes with write_archive and read the very "
+            "same members with read_archive. Raw tar.Header lists that no apko filesystem produces (block devices, fifos, negative ids, global headers, refused headers) go through "
+            "archive/tar's Writer driven as writeTar drives it; hand-made and damaged streams (V7/STAR/GNU blocks, base-256 numbers, signed checksums, odd PAX records, every kind of truncation, "
+            "random cuts and bit flips of real streams) are read by the real Reader and by read_archive (quick 300 cases, thorough 1700). "
+            "layerfile stage (exploration on real bytes): the real ImageLayoutToLayer emits layers of filesystems of different sizes to the SAME path "
             "(explicit tarball path and temp-dir default, one build context re-used and fresh ones, a path that already holds other bytes, both backends); after each "
             "emission the blob layer.Compressed() hands out must have the advertised size/digest/diff-id and untar to the filesystem's files. "
             "layers stage: a corpus of hand-picked filesystems (empty, empty file, setuid/setgid/sticky, uid/gid with and without passwd entries, "
@@ -15,7 +23,9 @@ class P(vlib.Prop):
     stages = (
         dict(name="layers", cmd="c06", args=lambda t, s: []),
         dict(name="layerfile", cmd="c06", args=lambda t, s: ["-stage", "layerfile"]),
+        dict(name="bytes", cmd="c06", args=lambda t, s: ["-stage", "bytes"]),
     )
+    watch = ("pkg/build/tarball.go",)
     assumptions = (
         "the filesystem state is what the FullFS interface reports (ReadDir/Info/Readlink/Readnod/ListXattrs/ReadFile); which names are hard links of which is known from the operations the harness performed (the interface exposes no inode numbers)",
         "a node whose Go ModTime is the zero time.Time (never set) has modification time 0 (Unix epoch), which is how archive/tar writes it",
